@@ -769,6 +769,12 @@ class TupimageTerminal:
                 )
             if inst.id is None:
                 raise ValueError("Cannot upload an ImageInstance without an ID")
+            # The ID may have been given to another image (or deleted) since the
+            # instance was created: bind it to the image of this instance again,
+            # so that the upload decision below is about this image.
+            info = self.id_manager.get_info(inst.id)
+            if info is None or info.description != inst.get_description():
+                self.id_manager.set_id(inst.id, inst.get_description())
         else:
             inst = self.assign_id(
                 image,
